@@ -1,6 +1,9 @@
 package jmespath
 
-import "encoding/json"
+import (
+	"encoding/json"
+	"strconv"
+)
 
 // C06: a compiled expression is a pure, reusable function of the data.
 // (a) the three entry points agree; (b) no call writes to the document, to the
@@ -366,4 +369,47 @@ func H_C06_mutated() {
 	}
 	one, oerr := Search(expr, doc)
 	vrtAssert(sameOutcome(got, gerr, one, oerr, un), "one-shot Search does not see a change the caller made to its document")
+}
+
+// H_C06_longhistory: a long sequence of distinct expressions through every
+// entry point (more than any plausible cache or intern table holds: 3200
+// quick, 13000 thorough; each entry point sees a third) leaves the library working: every call returns what
+// the expression means, nothing panics, and the first expression still
+// evaluates as before once the sequence is over.
+func H_C06_longhistory() {
+	n := tq(3200, 13000)
+	vrtBudget(60000000)
+	vrtMaxAlloc(100000)
+	vrtNote("template:" + strconv.Itoa(n) + " distinct expressions in sequence")
+	doc := map[string]any{"k7": "seven", "k3199": "last", "a": json.Number("1")}
+	first, ferr := Search("a", doc)
+	for i := 0; i < n; i++ {
+		expr := "k" + strconv.Itoa(i)
+		var got any
+		var err error
+		switch i % 3 {
+		case 0:
+			got, err = Search(expr, doc)
+		case 1:
+			var e *Expression
+			e, err = Compile(expr)
+			if err == nil {
+				got, err = e.Search(doc)
+			}
+		default:
+			got, err = Search(expr+" || `0`", doc)
+			if i != 7 && i != 3199 && err == nil {
+				vrtAssert(got == any(json.Number("0")), "expression number "+strconv.Itoa(i)+" of a long sequence evaluates wrongly")
+				continue
+			}
+		}
+		vrtAssert(err == nil, "expression number "+strconv.Itoa(i)+" of a long sequence fails")
+		if i == 7 {
+			vrtAssert(got == any("seven"), "member lookup in a long sequence")
+		} else if i != 3199 {
+			vrtAssert(got == nil || got == any(json.Number("0")), "absent member in a long sequence")
+		}
+	}
+	again, aerr := Search("a", doc)
+	vrtAssert(sameOutcome(first, ferr, again, aerr, false), "the first expression evaluates differently after a long sequence of others")
 }
